@@ -24,6 +24,8 @@ type Gen struct {
 	PlainQER bool
 	// UP4: the P4 datapath supports application filters only as remote prefix / proto / port range
 	UP4 bool
+	// PrecBoundary: draw precedence from the boundaries of the 16-bit range (C16)
+	PrecBoundary bool
 }
 
 func NewGen(r *Run) *Gen {
@@ -52,6 +54,9 @@ func (g *Gen) DrawAvoid() {
 func (g *Gen) c(n int, label string) int { return g.r.Ch.Choose(n, label) }
 
 func (g *Gen) precedence() uint32 {
+	if g.PrecBoundary {
+		return []uint32{100, 0, 1, 2, 65533, 65534, 65535, 32768}[g.c(8, "precb")]
+	}
 	switch g.c(6, "prec") {
 	case 0:
 		return 100
